@@ -14,10 +14,10 @@ def run(ctx):
     for _ in range(500 if ctx.quick() else 20000):
         cases.append({"kind": "random", "chord": ctx.rng.sample(n21, ctx.rng.randint(4, 7))})
     ctx.exhaustive = not ctx.quick()
-    ctx.bounds = {"quick": "50 shorthands x 21 roots (<= 1 accidental) x every rotation x {shorthand, long} x {default, no_polychords}; 2000 sampled three-note inputs; all 0/1/2-note inputs over 21 names; 500 random 4-7 note inputs; 2500 sampled of the extended chords (every chord of 5+ notes on 3 roots with one further note of 21 inserted at 4 positions, every rotation)",
+    ctx.bounds = {"quick": "50 shorthands x 25 roots (<= 1 accidental, and B##, Cbb, G##, Fbb) x every rotation x {shorthand, long} x {default, no_polychords}; 2000 sampled three-note inputs; all 0/1/2-note inputs over 21 names; 500 random 4-7 note inputs; 2500 sampled of the extended chords (every chord of 5+ notes on 3 roots with one further note of 21 inserted at 4 positions, every rotation)",
                   "thorough": "35 roots; all 9261 three-note inputs; 20000 random 4-7 note inputs; all extended chords"}[t]
     ctx.rule = ("TLC builds every chord from the formula table and rotates it (Gen_C07); three-note and small inputs enumerated by TLC; "
                 "random larger inputs seeded; distinct = distinct (operation, arguments); non-trivial = an inversion (k > 0), a non-chord input, or a root with an accidental")
     ctx.nontrivial = lambda r: r["in"].get("k", 0) > 0 or r["in"].get("kind") != "chord" or len(r["in"].get("root", [])) > 1
-    recs = ctx.execute("c07", cases)
+    recs = ctx.execute("c07", cases, orders=2)
     ctx.validate("Trace_C07", recs, driver="c07", shard=5000)
